@@ -158,6 +158,31 @@ _QUICK_SPECS = ["basic_int", "basic_str", "textattr", "textstr", "reqtext", "lis
                 "derived_root", "wild_text", "wild_attrs", "anytyped", "defaults", "temporal", "formats", "tokenlists", "parentb", "nsattr", "derivedb", "dup", "unionmodels", "nsattrparent", "family"]
 
 
+# ---------------------------------------------------------------------------------------------------------------------
+# the real TEXT layer of both writers (escaping, line ends, characters outside XML 1.0) - harness/textpath.py write_check
+from harness import textpath  # noqa: E402
+from harness.common import concretize, known, untraced  # noqa: E402
+
+_TP_PROP = "C01"
+_KNOWN_NONXML = known("C03-native-writer-nonxml-chars")
+
+
+def real_text(c0: int, c1: int, place: int) -> bool:
+    """
+    pre: 0 <= c0 < len(textpath.CPS)
+    pre: 0 <= c1 <= len(textpath.CPS)
+    pre: place == PART.get("place", 0)
+    post: _
+    """
+    k0, k1, kp = concretize(c0, len(textpath.CPS)), concretize(c1, len(textpath.CPS) + 1), PART.get("place", 0)
+    with untraced():
+        return result(textpath.write_check(_TP_PROP, textpath.PLACES[kp], k0, k1, _KNOWN_NONXML)["ok"])
+
+
+def explain_real_text(c0, c1, place):
+    return textpath.write_check(_TP_PROP, textpath.PLACES[place], c0, c1, _KNOWN_NONXML)
+
+
 def plan(tier):
     jobs = []
     if tier == "quick":
@@ -181,6 +206,8 @@ def plan(tier):
                     for ns in range(len(NS_MAPS)):
                         jobs.append(Job("rt", {"spec": name, "writer": w, "handler": h, "ns": ns, "indent": int(w == "native" and ns % 2 == 1), "ida": (ns // 2) % 2,
                                                "slen": 1 if name in ("unions_str", "compound") else 2, "imax": 1000}, 900, 40))
+    for place in range(len(textpath.PLACES)):
+        jobs.append(Job("real_text", {"place": place}, 300, 30, note="real writers / parsers on text; code points by selector"))
     return jobs
 
 
@@ -213,3 +240,5 @@ def req_text_witness():
         return XmlParser().from_string(XmlSerializer().render(obj), ReqText) == obj
     except Exception:  # noqa: BLE001
         return False
+
+EXPLAIN["real_text"] = explain_real_text
